@@ -1140,9 +1140,7 @@ Proof.
     + fin_tac. apply (binv_fin s t T); auto; try congruence. rewrite <- HT; lia.
     + bloc s t T Hpc.
   - (* J8 *) eapply (binv_frame s _ t); try reflexivity; tsimp; ssimp; auto.
-    + intros u Hu. unfold upd. destruct (S u =? cur T); lia.
-    + unfold blocal; tsimp; auto.
-    + rewrite HT. auto.
+    + intros u Hu. unfold upd. destruct (Nat.eqb_spec (S u) (cur T)) as [->|]; lia.
     + unfold rbound, in_retire; ssimp; tsimp. unfold rbound in LenT.
       assert (rthr s (S t) <= upd (rthr s) (cur T) (rthr s (cur T) + 2 * kslots s) (S t)).
       { unfold upd. destruct (Nat.eqb_spec (S t) (cur T)) as [<-|]; lia. }
@@ -1164,7 +1162,6 @@ Proof.
     + fin_tac. apply (binv_fin s t T); auto; try congruence. rewrite <- HT; lia.
     + bloc s t T Hpc.
   - (* X1 *) eapply (binv_frame s _ t); try reflexivity; tsimp; ssimp; auto.
-    + unfold blocal; tsimp; auto.
     + destruct LT; congruence.
     + unfold rbound, in_retire in *; ssimp; tsimp. cbn [length]. lia.
   - (* R1 *) destruct (Nat.leb_spec (rthr s (S t)) (length (rlist T))); cbn [fst].
